@@ -10,10 +10,12 @@ package rux
 
 import (
 	"net/http"
+	"net/url"
 	"os"
 	"path"
 	"path/filepath"
 	"regexp"
+	"strings"
 )
 
 const verifSecret = "TOP-SECRET-CONTENT"
@@ -21,20 +23,38 @@ const verifSecret = "TOP-SECRET-CONTENT"
 // verifSandbox creates root/{a.css,sub/b.js,c.txt} and a secret beside root.
 func verifSandbox() (root string, cleanup func()) {
 	if verifSymbolic() {
-		return "/srv/root", func() {}
+		return "/b/r", func() {}
 	}
 	base, err := os.MkdirTemp("", "verif-c17-")
 	if err != nil {
 		panic(err)
 	}
-	root = filepath.Join(base, "root")
+	root = filepath.Join(base, "r") // same directory name as in the symbolic world ("/b/r")
 	_ = os.MkdirAll(filepath.Join(root, "sub"), 0o755)
 	_ = os.WriteFile(filepath.Join(root, "a.css"), []byte("css"), 0o644)
 	_ = os.WriteFile(filepath.Join(root, "sub", "b.js"), []byte("js"), 0o644)
 	_ = os.WriteFile(filepath.Join(root, "c.txt"), []byte("txt"), 0o644)
 	_ = os.WriteFile(filepath.Join(base, "secret.css"), []byte(verifSecret), 0o644)
-	_ = os.WriteFile(filepath.Join(base, "rootsecret.css"), []byte(verifSecret), 0o644)
+	_ = os.WriteFile(filepath.Join(base, "rsecret.css"), []byte(verifSecret), 0o644)
 	return root, func() { _ = os.RemoveAll(base) }
+}
+
+// verifPlant (native replay only) puts the secret where a traversal through
+// rel would land, if that is outside the root but inside the sandbox.
+func verifPlant(root, rel string) {
+	base := filepath.Dir(root)
+	target := filepath.Join(root, rel)
+	if target == root || strings.HasPrefix(target, root+string(filepath.Separator)) {
+		return
+	}
+	if !strings.HasPrefix(target, base+string(filepath.Separator)) {
+		return
+	}
+	if st, err := os.Stat(target); err == nil && st.IsDir() {
+		return
+	}
+	_ = os.MkdirAll(filepath.Dir(target), 0o755)
+	_ = os.WriteFile(target, []byte(verifSecret), 0o644)
 }
 
 func verifUnder(root, name string) bool {
@@ -49,14 +69,17 @@ func verifHarness_C17_static() {
 	prefix := prefixes[(cfg/4)%len(prefixes)]
 	exts := []string{"css", "css|js"}[(cfg/12)%2]
 	cached := (cfg/24)%2 == 1
+	enc := (cfg/48)%2 == 1 // UseEncodedPath: the request is given by its escaped spelling
 	root, cleanup := verifSandbox()
 	defer cleanup()
-	var r *Router
+	var opts []func(*Router)
 	if cached {
-		r = New(EnableCaching)
-	} else {
-		r = New()
+		opts = append(opts, EnableCaching)
 	}
+	if enc {
+		opts = append(opts, UseEncodedPath)
+	}
+	r := New(opts...)
 	single := root + "/c.txt"
 	switch kind {
 	case 0:
@@ -70,11 +93,27 @@ func verifHarness_C17_static() {
 	}
 	n := verifLen("plen", 0, verifParam("L"))
 	tail := verifString("tail", n)
+	// a concrete suffix lets short symbolic parts form longer, servable names
+	tail += []string{"", "/x.css", ".js"}[verifChoice("suffix", 3)]
 	p := prefix + tail
 	if verifChoice("anywhere", 2) == 1 {
 		p = tail
 	}
 	req := verifRequest("GET", p)
+	if enc {
+		// p is the escaped spelling; URL.Path is its percent-decoding (net/url's contract)
+		verifAssume(verifAlphabet(tail, "/.%2eEfF5cCabxsj"))
+		dec, err := url.PathUnescape(p)
+		verifAssume(err == nil)
+		req.URL.Path = dec
+		if dec != p {
+			req.URL.RawPath = p
+		}
+	}
+	if !verifSymbolic() {
+		verifPlant(root, strings.TrimPrefix(req.URL.Path, prefix))
+		verifPlant(root, req.URL.Path)
+	}
 	rec := verifNewWriter()
 	verifEventsReset()
 	k := verifCatch(func() { r.ServeHTTP(rec, req) })
